@@ -409,14 +409,8 @@ def check_C09(chk, tier, seed):
                 if style == "dribble":
                     wscript = [1] * q + ["x"]
                 else:
-                    wscript, left = [], q
-                    for a in answers:
-                        if left <= 0:
-                            break
-                        n = min(left, len(a[1]))
-                        wscript.append(n)
-                        left -= n
-                    wscript.append("x")
+                    # a writer that lets exactly q octets through, in whatever portions they are offered, then fails
+                    wscript = [f"b:{q:x}", "x"]
                 for deliver in ("whole", "dribble"):
                     chunks = [stream] if deliver == "whole" else [stream[i:i + 1] for i in range(len(stream))]
                     cases.append(f"SV g {rs(chunks)} {ws(wscript)} {nreq} {ans_tok}")
@@ -438,6 +432,6 @@ def check_C09(chk, tier, seed):
             chk.sample(dict(case=c, impl=short(im, 200), P=ok))
     chk.exhaustive = True
     chk.rule = (f"{nstreams} request streams of 2-4 requests: EVERY read-side cut offset p in [0, N] (EOF and connection error; whole-buffer and one-octet delivery) and "
-                "EVERY write-side failure offset q in [0, total answer length] (one octet per poll, and answer-sized accepts; both deliveries); completion under paused "
+                "EVERY write-side failure offset q in [0, total answer length] (one octet per poll, and a writer that takes whatever is offered until q octets are through; both deliveries); completion under paused "
                 "virtual time (a pending future with an idle runtime is reported as a hang); handler log, octets written and result compared")
     chk.assumptions = ["partial: tokio contract; 'promptly' = the future completes without any timer firing under paused virtual time"]
